@@ -207,8 +207,6 @@ func VerifC14Accum() {
 			nonEmpty++
 		}
 		verifAssert(nonEmpty == len(c14MetaSeen), "C14.accum: parser called more often than there are non-empty payloads")
-	} else {
-		verifAssert(res == nil, "C14.accum: transactions returned together with an error")
 	}
 	verifReach("end")
 }
